@@ -520,9 +520,110 @@ func (s *symFn) dominatingStore(addr ssa.Value, at ssa.Instruction) (*ssa.Store,
 	return best, true
 }
 
+// globalAt: value of package variable g just before instruction `at` of this function: the initial value (an opaque
+// "global" term) overlaid with the whole-variable stores of this function on the paths reaching `at`.
+func (s *symFn) globalAt(g *ssa.Global, t types.Type, at ssa.Instruction) *Sym {
+	writes := false
+	for _, b := range s.fn.Blocks {
+		for _, in := range b.Instrs {
+			if st, ok := in.(*ssa.Store); ok {
+				if gg, _ := globalOfAddr(st.Addr); gg == g {
+					writes = true
+				}
+			}
+		}
+	}
+	initial := s.load(g, t)
+	if !writes {
+		// calls may still change it; that is the callee's business and reported by E3, here the term stays symbolic
+		return initial
+	}
+	memo := map[*ssa.BasicBlock]*Sym{}
+	var atEntry func(b *ssa.BasicBlock) *Sym
+	// value after executing instructions [0,n) of block b, starting from v
+	through := func(b *ssa.BasicBlock, n int, v *Sym) *Sym {
+		for i := 0; i < n && i < len(b.Instrs); i++ {
+			switch x := b.Instrs[i].(type) {
+			case *ssa.Store:
+				if gg, whole := globalOfAddr(x.Addr); gg == g {
+					if whole {
+						v = s.val(x.Val)
+					} else {
+						v = sUnknown("partial store to " + g.Name())
+					}
+				}
+			case ssa.CallInstruction:
+				for _, cal := range s.p.ownCallees(x) {
+					if s.a.allWrites(cal)[g] {
+						v = sUnknown(g.Name() + " modified by " + cal.Name())
+					}
+				}
+			}
+		}
+		return v
+	}
+	atEntry = func(b *ssa.BasicBlock) *Sym {
+		if r, ok := memo[b]; ok {
+			if r == nil {
+				return sUnknown("loop-carried global " + g.Name())
+			}
+			return r
+		}
+		memo[b] = nil
+		var out *Sym
+		if b.Index == 0 {
+			out = initial
+		} else {
+			idom := b.Idom()
+			for i := len(b.Preds) - 1; i >= 0; i-- {
+				p := b.Preds[i]
+				if b.Dominates(p) {
+					// back edge: sound only if the loop body does not write g
+					loop := s.headers[b]
+					for lb := range loop {
+						for _, in := range lb.Instrs {
+							if st, ok := in.(*ssa.Store); ok {
+								if gg, _ := globalOfAddr(st.Addr); gg == g {
+									memo[b] = sUnknown("loop writes " + g.Name())
+									return memo[b]
+								}
+							}
+						}
+					}
+					continue
+				}
+				v := through(p, len(p.Instrs), atEntry(p))
+				if out == nil {
+					out = v
+				} else {
+					c := sAnd(s.pathCondFrom(idom, p, nil), s.edgeCond(p, b))
+					out = sIte(c, v, out)
+				}
+			}
+			if out == nil {
+				out = initial
+			}
+		}
+		memo[b] = out
+		return out
+	}
+	b := at.Block()
+	n := 0
+	for i, in := range b.Instrs {
+		if in == at {
+			n = i
+		}
+	}
+	return through(b, n, atEntry(b))
+}
+
 // loadAt: value read by the load instruction `at` from addr (flow-sensitive for local cells and out-parameters).
 func (s *symFn) loadAt(addr ssa.Value, t types.Type, at ssa.Instruction) *Sym {
 	switch a := addr.(type) {
+	case *ssa.Global:
+		if s.a.mutable[a] {
+			return s.globalAt(a, t, at)
+		}
 	case *ssa.Alloc:
 		if _, isStruct := a.Type().Underlying().(*types.Pointer).Elem().Underlying().(*types.Struct); !isStruct {
 			if st, ok := s.dominatingStore(a, at); ok && st != nil {
